@@ -252,15 +252,21 @@ class LexModel:
                 continue
             fn: ast.FunctionDef = r.node  # type: ignore
             tname = fn.args.args[1].arg
+            # locals that hold the token's text
+            val_alias = {t.id for s2 in walk_local(fn) if isinstance(s2, ast.Assign) and attr_chain(s2.value) == (tname, "value") for t in s2.targets if isinstance(t, ast.Name)}
+
+            def is_value(e: ast.AST) -> bool:
+                return attr_chain(e) == (tname, "value") or (isinstance(e, ast.Name) and e.id in val_alias)
+
             for st in r.type_stores:
                 v = st.value  # type: ignore[attr-defined]
-                if attr_chain(v) == (tname, "value"):
+                if is_value(v):
                     p = self.lexer.parent.get(st)
                     src = None
                     while p is not None and p is not fn:
                         if isinstance(p, ast.If):
                             c = p.test
-                            if isinstance(c, ast.Compare) and len(c.ops) == 1 and isinstance(c.ops[0], ast.In) and attr_chain(c.left) == (tname, "value") and any(x is st for b in p.body for x in ast.walk(b)):
+                            if isinstance(c, ast.Compare) and len(c.ops) == 1 and isinstance(c.ops[0], ast.In) and is_value(c.left) and any(x is st for b in p.body for x in ast.walk(b)):
                                 ch = attr_chain(c.comparators[0])
                                 if ch and len(ch) == 2 and ch[0] == "self":
                                     src = ch[1]
@@ -272,11 +278,11 @@ class LexModel:
                         self.retypes.append((r.name, k, k))
                     continue
                 d = None
-                if isinstance(v, ast.Call) and isinstance(v.func, ast.Attribute) and v.func.attr == "get" and v.args and attr_chain(v.args[0]) == (tname, "value"):
+                if isinstance(v, ast.Call) and isinstance(v.func, ast.Attribute) and v.func.attr == "get" and v.args and is_value(v.args[0]):
                     ch = attr_chain(v.func.value)
                     if ch and len(ch) == 2 and ch[0] == "self":
                         d = self.F.get(ch[1])
-                if isinstance(v, ast.Subscript) and attr_chain(v.slice) == (tname, "value"):
+                if isinstance(v, ast.Subscript) and is_value(v.slice):
                     ch = attr_chain(v.value)
                     if ch and len(ch) == 2 and ch[0] == "self":
                         d = self.F.get(ch[1])
